@@ -8,7 +8,7 @@ import (
 func H_C17_nni() {
 	n := sxParam("n", 4)
 	t := genTree(n, 2, true)
-	decorate(t, lenAll, supNone)
+	decorate(t, lenAll, supAny)
 	if sxParam("reroot", 0) == 1 {
 		// any root position reached the way a user reaches it: by re-rooting
 		// (the parent is then no longer the first neighbour of every node)
@@ -23,7 +23,14 @@ func H_C17_nni() {
 	// inner branches, the two root branches of a rooted tree counting as one
 	ninner := len(splits0)
 	var rs []tree.Rearrangement
-	(&tree.NNIRearranger{}).Rearrange(t, func(r tree.Rearrangement) bool { rs = append(rs, r); return true })
+	// one rearranger object serves several trees (as gotree nni does for a file of trees)
+	nnir := &tree.NNIRearranger{}
+	if sxChoose("reused", 2) == 1 {
+		other := t.Clone()
+		cnt := 0
+		nnir.Rearrange(other, func(r tree.Rearrangement) bool { cnt++; return true })
+	}
+	nnir.Rearrange(t, func(r tree.Rearrangement) bool { rs = append(rs, r); return true })
 	sxReach("enumerated")
 	// known finding C17-rooted-root-branch: in a rooted tree whose two root
 	// children are both inner nodes, the branch that runs through the degree-2
